@@ -160,6 +160,10 @@ class RenameFields(Proc):
         else:
             fields = {rng.choice(FIELD_PATTERNS): 'n0', rng.choice(names): 'n1'}
             regex = rng.random() < 0.5
+        if not collide and len(names) >= 2 and rng.random() < 0.25:
+            a, b = rng.sample(names, 2)
+            fields = rng.choice([{a: b, b: a}, {a: b, b: 'n9'}, {b: 'n9', a: b}])
+            regex = False
         if collide:
             fields = {rng.choice(names): rng.choice(names)}
         return {'fields': fields, 'regex': regex, 'sel': gen_sel(rng, res_names(desc))}
